@@ -180,10 +180,13 @@ def judge_lock(ctx, rng, j):
             variants.append(('covered-field', wit, nf))
         notperm = [g for g in range(1, 256) if g & ~allowed & 0xff]
         if notperm:
-            g = rng.choice(notperm)
-            sg = sigmsg.sign(seed, b'')     # any 64 bytes + forbidden flag
-            variants.append(('forbidden-flag', isa.push(sig[:64] + bytes([g])),
-                             fields))
+            g = rng.choice([x for x in notperm if x != 0xff] or notperm)
+            if g != 0xff:
+                # a *valid* signature over the message selected by a flag the
+                # lock does not permit
+                variants.append(('forbidden-flag', bytes(
+                    tools.make_taproot_witness_keyspend(
+                        seed, fields, script, sigflags=f'{g:02x}')), fields))
         other = rbytes(rng, 32)
         variants.append(('other-key', bytes(tools.make_single_sig_witness(
             other, fields)), fields))
